@@ -17,8 +17,10 @@ LEVEL = "model_checking"
 
 def cases(tier, seed):
     if tier == "quick":
-        return seqr.exhaustive(3, 4) + seqr.exhaustive(4, 2, cfgs=seqr.CFGS[:3]) + seqr.random_cases(300, seed)
-    return seqr.exhaustive(3, 6) + seqr.exhaustive(4, 3) + seqr.random_cases(4000, seed)
+        return seqr.exhaustive(3, 4) + seqr.exhaustive(4, 2, cfgs=seqr.CFGS[:3]) + \
+            seqr.flat(3, 4, cfgs=[seqr.CFGS[0], seqr.CFGS[1], seqr.CFGS[3]]) + seqr.random_cases(300, seed)
+    return seqr.exhaustive(3, 6) + seqr.exhaustive(4, 3) + seqr.flat(3, 5, modes=(False, True)) + \
+        seqr.flat(4, 3, cfgs=[seqr.CFGS[0], seqr.CFGS[1]]) + seqr.random_cases(4000, seed)
 
 
 def observe(cs, seed):
@@ -105,7 +107,8 @@ def run(chk, tier, seed):
            "traces_validated_against_impl": n, "evaluations": n, "distinct_nontrivial": nontriv,
            "rule": "all rooted trees with <= 3 spans (grid 0..4; thorough 0..6) and 4 spans (grid 0..2; thorough 0..3), distinct "
                    "sibling starts, no touching sibling windows, x {sync, async} x prior-information / rename maps, plus seeded "
-                   "trees of 2-30 spans with random maps; non-trivial = at least 3 spans",
+                   "trees of 2-30 spans with random maps, plus a root with 3 children in every placement of their windows on a grid 0..4 "
+                   "(async, with and without prior-information groups); non-trivial = at least 3 spans",
            "distinct_timestamps_validated": nts, "exhaustive": False}
     return cov, ["mapped (renamed) names are fresh; renamed types do not occur in prior-information maps",
                  "no sibling's end equals another sibling's start", "one trace per call of the sequencer"]
